@@ -72,6 +72,8 @@ type c14Case struct {
 	panicked, inApply        bool
 	nearReached              bool
 	nFetch                   int
+	nReachable, nAccepted    int // interrupted-fetch: reachable left-overs / accepted without a fetch
+	nLoud                    int // ... answered with a loud error
 	leakMarkers, leakVisible int
 	leakReadyMs, leakCopyMs  float64
 
@@ -885,6 +887,9 @@ func runC14(c *vc.Ctx) error {
 			}
 		}
 		c.Ev.Count("fetches_through_prepareSnapshotForStore_after_interrupted_fetch", int64(cs.nFetch))
+		c.Ev.Count("interrupted_fetch_reachable_leftovers_(prefix_of_real_cp_order)", int64(cs.nReachable))
+		c.Ev.Count("interrupted_fetch_partial_leftovers_accepted_without_fetch", int64(cs.nAccepted))
+		c.Ev.Count("interrupted_fetch_loud_errors", int64(cs.nLoud))
 		if cs.nRestores > 0 {
 			h := sha1.Sum([]byte(strings.Join(cs.Script, "\n")))
 			c.Ev.Nontrivial(hex.EncodeToString(h[:8]))
